@@ -353,3 +353,42 @@ def gen_fmt_cstr(rng, tier):
         bs = bytes(rng.choice(reps + [rng.randrange(1, 256)]) for _ in range(ln))
         cases.append(["fmt_cstr %s" % bs.hex()])
     return cases
+
+
+def gen_ptr(rng, tier):
+    """typed addresses `pe32::Ptr<T>` / `pe64::Ptr<T>` (src/pe64/ptr.rs): element arithmetic, byte offsets,
+    member offsets and the printed text.  Arguments whose checked arithmetic overflows are not generated (pointer
+    arithmetic beyond the address space panics in checked builds, like the standard library's; it is not among the
+    entry points C02 speaks of) — except 32-bit indices whose byte offset is truncated by `as Va`, which do not panic."""
+    cases = []
+    sizes = [1, 2, 3, 4, 8, 16, 20, 40]
+    for w in (32, 64):
+        top = 1 << w
+        vas = [0, 1, 0x1000, 0x400000, 0x10000000, 0x7FFFFFFF, 0x80000000, 0xFFFFFFF0 if w == 32 else 0x140001000, top - 1, top - 41, top // 2]
+        for va in vas:
+            cases.append(["ptr %d text 0x%x" % (w, va)])
+            for off in (0, 1, 4, top - 1, top - 4, top // 2, top - va if va else 0):
+                cases.append(["ptr %d offset 0x%x 0x%x" % (w, va, off % top)])
+            for off in (0, 1, 8, 0xFFFFFFFF):
+                if va + off < top:
+                    cases.append(["ptr %d member 0x%x 0x%x" % (w, va, off)])
+            for size in sizes:
+                room = (top - 1 - va) // size
+                for i in sorted(set([0, 1, 2, min(7, room), room, max(room - 1, 0), room // 2])):
+                    if va + i * size < top:
+                        cases.append(["ptr %d at 0x%x %d %d" % (w, va, size, i)])
+        # 32-bit: the element offset is truncated before the checked addition
+        for size, i in ((4, 0x40000000), (8, 0x20000001), (16, 0x10000000), (2, 0x80000005)):
+            va = 0x1000
+            if va + (i * size) % top < top:
+                cases.append(["ptr 32 at 0x%x %d %d" % (va, size, i)])
+    n = 200 if tier == "quick" else 20000
+    for _ in range(n):
+        w = rng.choice([32, 64])
+        top = 1 << w
+        va = rng.choice([rng.randrange(top), rng.randrange(1 << 20), top - 1 - rng.randrange(1 << 12)])
+        size = rng.choice(sizes)
+        room = (top - 1 - va) // size
+        i = rng.choice([rng.randrange(room + 1), min(room, rng.randrange(1 << 10))])
+        cases.append(["ptr %d at 0x%x %d %d" % (w, va, size, i), "ptr %d offset 0x%x 0x%x" % (w, va, rng.randrange(top)), "ptr %d text 0x%x" % (w, va)])
+    return cases
